@@ -3,12 +3,15 @@ Mirror of the attachment code of `weasyprint/pdf/anchors.py` (`write_pdf_attachm
 `add_annotations`) and of the "Embedded files" block of `weasyprint/pdf/__init__.py::generate_pdf`.
 
 Outside the model (standard library / I/O, supplied by the harness as data): the bytes delivered by
-the URL fetcher (only their length and whether fetching raised `URLFetchingError`),
+the URL fetcher (only their length and whether fetching raised `URLFetchingError`), the code points of
+a file name (file names are opaque atoms; `cpsOf` is supplied by the driver),
 `basename(unquote(urlsplit(url).path))`, `mimetypes.guess_type`, `md5`, `strftime`.
 No Mathlib: linked into the driver.
 -/
 import WpModel.Model.Wire
 import WpModel.Model.Anchors
+import WpModel.Model.C18PdfString
+import WpModel.Model.Outline
 
 namespace Wp.Attach
 open Wp Wp.Anchors
@@ -78,12 +81,42 @@ structure EmbeddedFiles where
   names : List (String × Nat)
   deriving Repr, DecidableEq
 
-/-- "Embedded files" of `generate_pdf`: `metadata.attachments` then `options['attachments']`. -/
-def embeddedFiles (guesses : List (String × String)) (next : Nat) (atts : List Att) :
+/-- `str.encode(errors='ignore')` for one code point: UTF-8; a lone surrogate is dropped. -/
+def utf8 (c : Nat) : List Nat :=
+  if c < 128 then [c]
+  else if c < 2048 then [192 + c / 64, 128 + c % 64]
+  else if Wp.PdfStr.isSurrogate c then []
+  else if c < 65536 then [224 + c / 4096, 128 + c / 64 % 64, 128 + c % 64]
+  else [240 + c / 262144, 128 + c / 4096 % 64, 128 + c / 64 % 64, 128 + c % 64]
+
+/-- The bytes of the `/F` key, `filename.encode(errors='ignore')` (what a PDF reader compares in the
+`/EmbeddedFiles` name tree). -/
+def fKey (cps : List Nat) : List Nat := cps.flatMap utf8
+
+/-- `pdf_attachment['F'].data` — `pydyf.String(<bytes>).data`: always the literal form, the bytes
+between parentheses with `\`, `(` and `)` escaped.  This **written form** is the sort key of repair
+186e86a. -/
+def fData (cps : List Nat) : List Nat := 40 :: (Wp.PdfStr.escapeLit (fKey cps) ++ [41])
+
+def insertSpec (cpsOf : String → List Nat) (x : FileSpec) : List FileSpec → List FileSpec
+  | [] => [x]
+  | y :: ys =>
+    if Wp.Outline.nameLt (fData (cpsOf y.filename)) (fData (cpsOf x.filename)) then y :: insertSpec cpsOf x ys
+    else x :: y :: ys
+
+/-- `sorted(pdf_attachments, key=lambda attachment: attachment['F'].data)` (stable). -/
+def sortSpecs (cpsOf : String → List Nat) : List FileSpec → List FileSpec
+  | [] => []
+  | x :: xs => insertSpec cpsOf x (sortSpecs cpsOf xs)
+
+/-- "Embedded files" of `generate_pdf`: `metadata.attachments` then `options['attachments']`; the name
+array lists them sorted by the written form of their `/F` key.  `cpsOf` gives the code points of a
+file name. -/
+def embeddedFiles (cpsOf : String → List Nat) (guesses : List (String × String)) (next : Nat) (atts : List Att) :
     List FileSpec × Option EmbeddedFiles × Nat :=
   let r := writeAll guesses next atts
   if r.1.isEmpty then (r.1, none, r.2)
-  else (r.1, some ⟨r.2, r.1.map (fun f => (f.filename, f.spec))⟩, r.2 + 1)
+  else (r.1, some ⟨r.2, (sortSpecs cpsOf r.1).map (fun f => (f.filename, f.spec))⟩, r.2 + 1)
 
 /-- `<link rel=attachment href=… title=…>` as `get_html_metadata` sees it: `href` is the resolved URL
 (`get_url_attribute`), `none` when the attribute is missing. -/
